@@ -370,10 +370,13 @@ class CompilerPassGenerateCode(CompilerPass):
         node._ndata.add(IC10("j", [start_label]))
 
     def handle_break(self, node: nodes.Break):
-        while not isinstance(node.parent, (nodes.While, nodes.For)):
-            node = node.parent
-        end_label = node.parent._ndata.end_label
-        node._ndata.add(IC10("j", [end_label]))
+        # find the enclosing loop, but emit the jump at the break statement itself
+        # (not at the outermost statement of the loop body that contains it)
+        loop = node
+        while not isinstance(loop.parent, (nodes.While, nodes.For)):
+            loop = loop.parent
+        end_label = loop.parent._ndata.end_label
+        node._ndata.add(IC10("j", [end_label], indent=-1))
 
     def handle_name(self, node: nodes.Name):
         # todo: detect if name is in locals/globals
